@@ -140,7 +140,7 @@ theorem run_length_le {cfg : Cfg} : ∀ (ls : List Label) (s s' : St), run (step
     return of a mapper call, the downstream handing control back to the terminal.  Not owed (environment choices):
     cancel, injected failures, early stop, a direct re-pull. -/
 def obliged : Label → Bool
-  | .cancel | .pEmitErr | .wMapErr _ | .cStop | .cFail | .cRepull => false
+  | .cancel | .pEmitErr | .wMapErr _ | .cStop | .cFail | .cRepull | .cOpenFail => false
   | _ => true
 
 /-- Producer and workers can move unless they are all done — provided the consumer side is not what blocks them:
